@@ -17,6 +17,7 @@
 -/
 import CachedProofs.Lemmas.Upsert
 import CachedProofs.Properties.C09
+import CachedProofs.Properties.G17
 
 namespace Cached
 
